@@ -6,7 +6,9 @@ mod c02;
 mod c03;
 mod c04;
 mod c05;
+mod c06;
 mod common;
+mod witness;
 
 fn main() {
     let id = std::env::args().nth(1).unwrap_or_default();
@@ -16,6 +18,7 @@ fn main() {
         "C03" => c03::main(),
         "C04" => c04::main(),
         "C05" => c05::main(),
+        "C06" => c06::main(),
         other => {
             println!("INCONCLUSIVE property={other} reason=vh-exec has no check for this property");
             std::process::exit(2);
